@@ -389,6 +389,13 @@ Theorem C16_end_to_end_overdrawn_any_sheet : forall c o secs ts workbook v envp 
   fst (rp2_model c o secs ts workbook v envp) <> 0 /\ snd (rp2_model c o secs ts workbook v envp) = [].
 Proof. exact e2e_overdrawn_any_sheet. Qed.
 
+(** ... and exhausted lots for any parsed sheet whose matcher input is well formed (no [hist]; [C16_expected_sheet_wf] below) *)
+Theorem C16_end_to_end_lots_exhausted_any_rows : forall c o secs ts workbook v envp s assets ps sched a p t evs,
+  front_accepts c o secs ts workbook s assets ps -> e2e_sched c o s = Some sched -> In (a, p) ps ->
+  txs_of_parsed p = Ok t -> taxable_events t = Ok evs -> wf (t_ins t) sched (map event_of evs) -> lots_exhausted t evs ->
+  rp2_model c o secs ts workbook v envp = (1, []).
+Proof. exact e2e_lots_exhausted_any_rows. Qed.
+
 (** THE SEAM (front half).  Valid configuration, passed option checks, every processed asset's sheet the rendering of
     well-formed tables ([rendered_workbook]: [wf_blocks], pairwise distinct table types in any order, any column layout, any junk,
     blank rows), the typed rows yielding the transactions [ps] ([expected_all], at least one acquisition per asset): the run IS the
@@ -587,6 +594,7 @@ Theorem C16_end_to_end_any_rows_nonvacuous :
 Proof. exact e2e_any_rows_nonvacuous. Qed.
 
 Print Assumptions C16_end_to_end_rejection.
+Print Assumptions C16_end_to_end_lots_exhausted_any_rows.
 Print Assumptions C16_end_to_end_success_any_rows.
 Print Assumptions C16_expected_sheet_sets.
 Print Assumptions C16_expected_sheet_wf.
